@@ -289,6 +289,33 @@ def run_busoff(spec, res):
         res.violate("busoff_missed_sequential_calls" if seq else "busoff_missed",
                     "bus(es) %s switched off via %s%s but attached devices still on: %s" % (
                         off, via, " after PF" if after_pf else "", sorted(map(str, still_on))[:6]), via=via, n_off=len(off))
+    # quiescent point "before power flow": the routine is initialised, pending switchings have been carried out -
+    # what the system reports about islands and isolated buses must describe the graph as it is now
+    exp = check_connectivity_state(res, ss, "busoff(%s%s) after PFlow.init" % (via, " after PF" if after_pf else ""))
+    res.count("connectivity_state_checked_at_quiescent_point")
+    # ... and the switched-off buses must not spoil convergence: when what remains in service is one island with a slack
+    # generator, the power flow of the reduced network has to converge (the full case does)
+    if not res.violations and exp is not None and len(exp["comps"]) == 1:
+        comp = set(int(i) for i in exp["comps"][0])
+        if any(int(p_) in comp for p_ in exp["slack_pos"]):
+            try:
+                ok = bool(ss.PFlow.run())
+            except Exception as e:
+                ok = False
+                res.note("PFlow.run raised %r" % (e,))
+            res.count("busoff_power_flows")
+            # losing a generator bus or a transfer path may make the reduced network infeasible: decide with the own solver
+            if not ok:
+                from vf.oracle import powerflow as opf
+                d, unsupported = opf.extract(ss)
+                ref = opf.solve(d, tol=1e-8, max_iter=20) if not unsupported else None
+                if ref is not None and ref["converged"]:
+                    res.violate("busoff_spoils_convergence", "bus(es) %s switched off via %s%s: PFlow.run() fails although the remaining network "
+                                "is one island with a slack generator and the own Newton solver converges on it in %d iterations" % (
+                                    off, via, " after PF" if after_pf else "", ref["iters"]), via=via)
+                else:
+                    res.count("busoff_reduced_network_infeasible_or_outside_oracle")
+            check_connectivity_state(res, ss, "busoff(%s) after PFlow.run" % via)
     res.nontrivial = len(att) > 0
     res.sample = dict(case=path, off=off, via=via, after_pf=after_pf, attached=len(att), changed=len(changed))
 
